@@ -5,6 +5,7 @@ package main
 // after every step.
 
 import (
+	"os"
 	"encoding/binary"
 	"fmt"
 	"math/rand"
@@ -188,12 +189,28 @@ type ConnCfg struct {
 }
 
 type Step struct {
-	Kind string // feed | evict | drop | advance
+	Kind string // feed | evict | drop | advance | fault (applies to the next feed)
+	Fault *FaultSpec
 	Conn string
 	Cmd  Command
 	Tier string // evict/drop
 	Key  []byte
 	Secs int64
+}
+
+// FaultSpec is a backend fault planned for the next fed command.
+type FaultSpec struct {
+	Tier   string // L1 | L2
+	Index  int    // 0-based request index on that tier within the command
+	Kind   string // status | cut-before | cut-after
+	Status uint16
+}
+
+func (f FaultSpec) String() string {
+	if f.Kind == "status" {
+		return fmt.Sprintf("%s %d status:%d", f.Tier, f.Index, f.Status)
+	}
+	return fmt.Sprintf("%s %d %s", f.Tier, f.Index, f.Kind)
 }
 
 type Scenario struct {
@@ -251,6 +268,7 @@ type StepObs struct {
 	Out    []byte
 	Ending string
 	L1, L2 []fakemc.Entry
+	Locks  []string
 }
 
 // OracleMiss is a step at which the implementation's reply differs from the specification's.
@@ -307,6 +325,8 @@ func runScenario(d *Driver, sc Scenario, timeout time.Duration, oracle bool, res
 	}()
 	var descs []string
 	var obs []StepObs
+	armed := false
+	var armedSpec *FaultSpec
 	diverge := func(i int, what, impl, model string) *Divergence {
 		return &Divergence{Scenario: sc.ID, Step: i, What: what, Impl: impl, Model: model, Script: append([]string{}, d.Script...), Desc: descs}
 	}
@@ -316,6 +336,19 @@ func runScenario(d *Driver, sc Scenario, timeout time.Duration, oracle bool, res
 			st.L1.Offset += s.Secs
 			st.L2.Offset += s.Secs
 			descs = append(descs, fmt.Sprintf("advance %d", s.Secs))
+			obs = append(obs, StepObs{})
+			continue
+		case "fault":
+			f := st.L1
+			if s.Fault.Tier == "L2" {
+				f = st.L2
+			}
+			fk := map[string]fakemc.FaultKind{"status": fakemc.FaultStatus, "cut-before": fakemc.FaultCutBefore, "cut-after": fakemc.FaultCutAfter}[s.Fault.Kind]
+			f.Arm(&fakemc.Fault{Index: s.Fault.Index, Kind: fk, Status: s.Fault.Status})
+			d.Send("fault "+s.Fault.String(), 0)
+			armed = true
+			armedSpec = s.Fault
+			descs = append(descs, "fault "+s.Fault.String())
 			obs = append(obs, StepObs{})
 			continue
 		case "evict", "drop":
@@ -330,14 +363,52 @@ func runScenario(d *Driver, sc Scenario, timeout time.Duration, oracle bool, res
 			continue
 		}
 		cl := clients[s.Conn]
+		if cl.dead {
+			// the server closed this connection earlier (fault, quit, fatal parse error): a
+			// client would reconnect; the model keeps no per-connection state between feeds
+			for _, c := range sc.Conns {
+				if c.ID == s.Conn {
+					cl = st.Dial(c.Port, c.Proto)
+					clients[s.Conn] = cl
+				}
+			}
+		}
+		st.TakeLockLog()
 		data := s.Cmd.Encode(protos[s.Conn])
 		descs = append(descs, s.Conn+": "+s.Cmd.Describe())
 		now0 := st.L1.Now()
+		tFeed := time.Now()
 		out, ending := cl.Feed(data, timeout)
+		if os.Getenv("VERIF_DEBUG_TIMING") != "" {
+			fmt.Fprintf(os.Stderr, "%s step %d %s: %v (%s)\n", sc.ID, i, s.Cmd.Describe(), time.Since(tFeed), ending)
+		}
 		now1 := st.L1.Now()
+		if ending != "eof" {
+			// let the server side of a closing connection finish (deferred unlocks, backend closes)
+			time.Sleep(20 * time.Millisecond)
+		}
 		l1, l2 := st.L1.TakeLog(), st.L2.TakeLog()
-		obs = append(obs, StepObs{Out: out, Ending: ending, L1: l1, L2: l2})
-		if now0 != now1 {
+		lockLog := st.TakeLockLog()
+		obs = append(obs, StepObs{Out: out, Ending: ending, L1: l1, L2: l2, Locks: lockLog})
+		if armed {
+			st.L1.Arm(nil)
+			st.L2.Arm(nil)
+			// an error status in answer to the key-less noop that closes a quiet batch is not a
+			// behaviour of any memcached (and leaves the error body unread in the stream): such
+			// plans are skipped, and counted
+			if armedSpec != nil && armedSpec.Kind == "status" {
+				lg := l1
+				if armedSpec.Tier == "L2" {
+					lg = l2
+				}
+				if armedSpec.Index < len(lg) && lg[armedSpec.Index].Op == "noop" {
+					d.Send("nofault", 0)
+					return nil, true, obs
+				}
+			}
+		}
+		if now0 != now1 && ending != "hang" {
+			// (a client left waiting for the whole timeout is a finding, not a clock artefact)
 			return nil, true, obs
 		}
 		// nondeterministic choices of the implementation, as observed
@@ -386,6 +457,15 @@ func runScenario(d *Driver, sc Scenario, timeout time.Duration, oracle bool, res
 		}
 		if t := "trace2 " + traceLine(l2); strings.TrimSpace(t) != strings.TrimSpace(r4[2]) {
 			return diverge(i, "L2 requests", t, r4[2]), false, obs
+		}
+		if sc.Stack.Locked != "none" {
+			if t := "locks " + strings.Join(lockLog, " "); strings.TrimSpace(t) != strings.TrimSpace(r4[3]) {
+				return diverge(i, "lock events", t, r4[3]), false, obs
+			}
+		}
+		if armed {
+			d.Send("nofault", 0)
+			armed = false
 		}
 		// backend contents (sampled within one wall-clock second)
 		for _, tf := range []struct {
